@@ -697,6 +697,13 @@ pub fn cmd_check(args: &Args) -> i32 {
         }
     }
 
+    let mut seam_note: Option<String> = None;
+    if prop.id() == "C20" {
+        seam_note = crate::props::c20::seam_probe();
+        if let Some(n) = &seam_note {
+            println!("note: {}", n);
+        }
+    }
     let runs = args.runs.unwrap_or_else(|| default_runs(prop.id(), &args.tier));
     println!(
         "check {} tier={} VERIF_SEED={} runs={} threads={}",
@@ -739,6 +746,9 @@ pub fn cmd_check(args: &Args) -> i32 {
         }
     };
 
+    if let Some(n) = seam_note {
+        extra.items.push(("cli_seam".into(), J::Str(n)));
+    }
     extra.items.push((
         "determinism_selfcheck".into(),
         J::obj()
@@ -906,6 +916,9 @@ fn confirm_in_fresh_process(prop: &str, path: &str) -> bool {
 }
 
 pub fn cmd_replay(prop: &dyn Prop, _args: &Args, path: &str) -> i32 {
+    if prop.id() == "C20" {
+        let _ = crate::props::c20::seam_probe();
+    }
     let (sc, want) = match load_replay(path) {
         Ok(x) => x,
         Err(e) => {
